@@ -70,6 +70,14 @@ def payload_exhaustive(F, r):
     return out
 
 
+def payload_exh_rule(F):
+    r = RuleResult("R-PAYLOAD-EXH", "every wasmparser::Payload variant of the build has an explicit arm in Module::parse_internal (the `_ => todo!()` catch-all is dead)")
+    r.analysed.append("ir::module::Module::parse_internal")
+    payload_exhaustive(F, r)
+    r.count("payload_variants", len(F.variants("wasmparser::Payload")))
+    return r
+
+
 def sites_of(F, fn, repo):
     mir = fn.get("mir")
     if not mir:
